@@ -186,3 +186,33 @@ func runC13(c *CheckCtx) {
 	c.assumptions["a Go panic inside a builtin is turned into a lisp error by the binder's wrapper (C20/C04); contracts constrain normal returns only"] = true
 	c.assumptions["the binder passes arguments of the declared Go parameter types (C20)"] = true
 }
+
+// ---------------------------------------------------------------------------
+// C20: reflectively bound Go functions are called only within their declared contract
+
+func init() {
+	register(&Property{
+		ID: "C20", Level: "proof", Technique: "contract-based deductive verification over an abstract reflect: panics-iff contracts of the argument builders, post-conditions of the six recover-protected wrapper closures with a ghost invocation counter, assert-at obligations relating the accepted argument window to the declared / signature-derived lisp bounds at the registration site, result-mapping contracts",
+		DesignRef: "DESIGN.md §4 C20",
+		Explain:   "lib/call: call (registration), _args, _args_ctx, _nil_nil, _nil_error, _result_error, _recover and the six wrapper closures",
+		Run:       runC20,
+	})
+}
+
+func runC20(c *CheckCtx) {
+	names := []string{"lib/call.call", "lib/call._args", "lib/call._args_ctx", "lib/call._nil_nil", "lib/call._nil_error", "lib/call._result_error", "lib/call._recover",
+		"lib/call.call$1", "lib/call.call$2", "lib/call.call$3", "lib/call.call$4", "lib/call.call$5", "lib/call.call$6"}
+	jobs := c.jobsFor(names, func(f *ssa.Function) *Job {
+		mode := "obligation"
+		if n := f.Name(); n == "_nil_error" || n == "_result_error" {
+			mode = "ignore" // a non-error second result panics inside the wrapper, which recovers it
+		}
+		return &Job{Fn: f, PanicMode: mode, TypeInv: true}
+	})
+	c.runJobs(jobs, func(o *Obligation) bool {
+		return strings.HasPrefix(o.Kind, "nopanic/") || strings.HasPrefix(o.Kind, "panic-iff/") || o.Kind == "pre" || o.Kind == "post" || o.Kind == "assert" || strings.HasPrefix(o.Kind, "inv-")
+	})
+	c.assumptions["reflect abstracted: Type.NumIn/NumOut/IsVariadic as uninterpreted signature facts; Value.Call panics before invoking unless every argument is assignable (ghost `assignable`), then invokes once (ghost `invoked`); the called Go function may panic"] = true
+	c.assumptions["runtime.FuncForPC(...).Name() contains a dot (\"pkgpath.func\")"] = true
+	c.assumptions["name derivation (lower case, '_' -> '-') relies on strings.ToLower/Replace and is not verified"] = true
+}
